@@ -67,32 +67,45 @@ def rust_module(idx, d, skel):
         ctxty = 'C'
     snap = ', '.join('rt::opt_str(self.state_data_%s().map(|d| d.0))' % to_snake(s) for (s, _) in specs)
     w('  fn __snap(&self) -> String { let v: Vec<String> = vec![%s]; v.join("/") }' % snap)
+    # async machines with an even index get hooks written as ordinary functions that do their bookkeeping when
+    # CALLED and return the future (`fn g(&self, ..) -> impl Future`), the others get `async fn` hooks whose body
+    # runs when first polled: generated code that creates a hook future before the previous hook completed is
+    # visible with the first kind (rt::begin flags the overlap), code that drops one unpolled with both
+    eager = is_async and idx % 2 == 0
     af = 'async fn' if is_async else 'fn'
     aw = ' rt::Susp(a.susp).await;' if is_async else ''
+
+    def hook_fn(name, args, ret, begin, tail):
+        """one instrumented hook; [begin] is the rt::begin(..) call, [tail] the expression it evaluates to"""
+        if eager:
+            lt_args = args.replace('&self', "&'h self").replace(': &', ": &'h ")
+            w("  fn %s<'h>(%s) -> impl core::future::Future<Output = %s> + 'h { let (r, a) = %s; async move { rt::Susp(a.susp).await; rt::check_panic(&a, \"%s\"); rt::end(r); %s } }"
+              % (name, lt_args, ret, begin, name, tail))
+        else:
+            w('  %s %s(%s)%s { let (r, a) = %s;%s rt::check_panic(&a, "%s"); rt::end(r); %s }'
+              % (af, name, args, (' -> ' + ret) if ret != '()' else '', begin, aw, name, tail))
+
     for g in sorted(set(hooks['guards'] + hooks['unless'])):
         kind = 'g' if g in hooks['guards'] else 'u'
         val = 'rt::guard_val(&a)' if kind == 'g' else 'rt::unless_val(&a)'
         plarg = ', pl: &P' if hpl.get(g) else ''
         plv = 'Some(pl.0)' if hpl.get(g) else 'None'
-        w('  %s %s(&self, ctx: &%s%s) -> bool { let (r, a) = rt::begin("%s", "%s", rt::sname::<S>(), self.__snap(), rt::ctx_id(ctx), %s);%s rt::check_panic(&a, "%s"); rt::end(r); %s }'
-          % (af, g, ctxty, plarg, kind, g, plv, aw, g, val))
+        hook_fn(g, '&self, ctx: &%s%s' % (ctxty, plarg), 'bool',
+                'rt::begin("%s", "%s", rt::sname::<S>(), self.__snap(), rt::ctx_id(ctx), %s)' % (kind, g, plv), val)
     for cb in sorted(set(hooks['before'] + hooks['after'])):
         kind = 'b' if cb in hooks['before'] else 'a'
         plarg = ', pl: &P' if hpl.get(cb) else ''
         plv = 'Some(pl.0)' if hpl.get(cb) else 'None'
-        w('  %s %s(&self%s) { let (r, a) = rt::begin("%s", "%s", rt::sname::<S>(), self.__snap(), rt::ctx_id(&self.ctx), %s);%s rt::check_panic(&a, "%s"); rt::end(r); }'
-          % (af, cb, plarg, kind, cb, plv, aw, cb))
+        hook_fn(cb, '&self%s' % plarg, '()',
+                'rt::begin("%s", "%s", rt::sname::<S>(), self.__snap(), rt::ctx_id(&self.ctx), %s)' % (kind, cb, plv), '()')
     for cb in hooks['around']:
-        w('  %s %s(&self, stage: AroundStage) -> AroundOutcome<%s> {' % (af, cb, initial))
-        w('    let kind = match stage { AroundStage::Before => "ab", AroundStage::AfterSuccess => "aa" };')
-        w('    let (r, a) = rt::begin(kind, "%s", rt::sname::<S>(), self.__snap(), rt::ctx_id(&self.ctx), None);%s rt::check_panic(&a, "%s"); rt::end(r);' % (cb, aw, cb))
-        w('    match a.val {')
-        w('      rt::AnsVal::AbortGuard(n) => AroundOutcome::Abort(TransitionError { from: %s, event: "xx_ev", kind: TransitionErrorKind::GuardFailed { guard: n } }),' % initial)
-        w('      rt::AnsVal::AbortAction(n) => AroundOutcome::Abort(TransitionError { from: %s, event: "xx_ev", kind: TransitionErrorKind::ActionFailed { action: n } }),' % initial)
-        w('      rt::AnsVal::AbortInvalid => AroundOutcome::Abort(TransitionError { from: %s, event: "xx_ev", kind: TransitionErrorKind::InvalidTransition }),' % initial)
-        w('      _ => AroundOutcome::Proceed,')
-        w('    }')
-        w('  }')
+        outcome = ('match a.val { rt::AnsVal::AbortGuard(n) => AroundOutcome::Abort(TransitionError { from: %s, event: "xx_ev", kind: TransitionErrorKind::GuardFailed { guard: n } }), '
+                   'rt::AnsVal::AbortAction(n) => AroundOutcome::Abort(TransitionError { from: %s, event: "xx_ev", kind: TransitionErrorKind::ActionFailed { action: n } }), '
+                   'rt::AnsVal::AbortInvalid => AroundOutcome::Abort(TransitionError { from: %s, event: "xx_ev", kind: TransitionErrorKind::InvalidTransition }), '
+                   '_ => AroundOutcome::Proceed }' % (initial, initial, initial))
+        hook_fn(cb, '&self, stage: AroundStage', 'AroundOutcome<%s>' % initial,
+                'rt::begin(match stage { AroundStage::Before => "ab", AroundStage::AfterSuccess => "aa" }, "%s", rt::sname::<S>(), self.__snap(), rt::ctx_id(&self.ctx), None)' % cb,
+                outcome)
     w('}')
     # typed holder
     w('pub enum Typed_ { %s }' % ', '.join('%s(%s)' % (s, MT(s)) for s in leaves))
